@@ -23,7 +23,7 @@ import tokenize
 
 ROOT = os.path.dirname(os.path.dirname(os.path.abspath(__file__)))
 sys.path.insert(0, ROOT)
-OUT = os.path.join(ROOT, '.work', 'mutsurvey')
+OUT = os.environ.get('MUTSURVEY_DIR') or os.path.join(ROOT, '.work', 'mutsurvey')
 CACHE = os.path.join(OUT, 'cache')
 BASE_FAILSET = 'a791431c'
 
